@@ -92,6 +92,48 @@ def handleRt (inp out : Toks) : String :=
       | _ => if hex != "empty" then "propfail nil-encodes-to-bytes" else "ok triv-nil"
     | _ => if out == ["panic"] then "propfail panic" else "bad output"
 
+/-- `seq n (o srid how gval)* => HEX ; outcome ; … ; outcome` : one Encoder, one Decoder, a stream of values -/
+def handleSeq (inp out : Toks) : String :=
+  match (do
+    let (n, i) ← nat inp
+    let item : P (Order × Nat × GVal UInt64) := fun ts => do
+      let (ot, ts) ← tok ts
+      let o ← parseOrder ot
+      let (srid, ts) ← nat ts
+      let (_, ts) ← tok ts
+      let (v, ts) ← gval ts
+      pure ((o, srid, v), ts)
+    let (items, _) ← many item n i
+    pure items) with
+  | none => "bad input"
+  | some items =>
+    if out == ["panic"] then "propfail panic" else
+    let mbytes := items.foldl (fun acc (o, srid, v) => acc ++ encode o srid v) []
+    let vals := items.filterMap fun (_, srid, v) => match v with | .val g => some (g, srid) | _ => none
+    -- model: successive Decode() calls on one stream, one more than there are values
+    let rec dec (fuel : Nat) (s : Bytes) (acc : List String) : List String :=
+      match fuel with
+      | 0 => acc
+      | fuel+1 =>
+        match decodeStream s.length s with
+        | .ok (g, srid, rest) => dec fuel rest (acc ++ [showOutcome (.ok (g, srid))])
+        | .err e => acc ++ ["err " ++ errClass e]
+        | .panic _ => acc ++ ["panic"]
+    let mouts := dec (vals.length + 1) mbytes []
+    let model := " ; ".intercalate (hexOfBytes mbytes :: mouts)
+    let got := " ".intercalate out
+    let fin (s : String) : String := if s.startsWith "propfail" || model == got then s else "diff " ++ model
+    fin <|
+    match splitSemi out with
+    | [] => "bad output"
+    | _hex :: outs =>
+      if outs.any (· == ["panic"]) then "propfail panic" else
+      let want := vals.map fun (g, srid) => showOutcome (.ok (canon g, srid))
+      let gotVals := (outs.take vals.length).map (" ".intercalate ·)
+      if gotVals != want then "propfail stream-sequence-roundtrip" else
+      if (outs.drop vals.length).map (" ".intercalate ·) != ["err eof"] then "propfail stream-end-not-eof" else
+      if vals.length ≤ 1 then "ok seq-short" else "ok seq"
+
 def frameBytes (framing : String) (prefixSrid : Nat) (bs : Bytes) : Option Bytes :=
   match framing with
   | "raw" => some bs
@@ -173,6 +215,7 @@ def handle (ts : Toks) : String :=
     let (inp, out) := splitArrow rest
     match op with
     | "rt" => handleRt inp out
+    | "seq" => handleSeq inp out
     | "sc" => handleSc inp out
     | "wsc" => handleWsc inp out
     | _ => "bad op " ++ op
